@@ -162,8 +162,14 @@ def all_codes(s, w):
     return list(range(lo, hi + 1))
 
 
-def do_ops(ctx, x, y, ops=('add', 'sub', 'mul'), routes=('operator', 'function', 'numpy')):
+def do_ops(ctx, x, y, ops=('add', 'sub', 'mul'), routes=('operator', 'function', 'numpy'), rng=None):
     fm = ctx.mon.fxpmath
+    if rng is not None and rng.random() < 0.35:
+        # operands with a history (same format and codes, obtained through another public route)
+        x, hx = G.historied(ctx.mon.Fxp, x, rng)
+        y, hy = G.historied(ctx.mon.Fxp, y, rng)
+        ctx.notes['history:%s' % hx] += 1
+        ctx.notes['history:%s' % hy] += 1
     for op in ops:
         for rt in routes:
             try:
@@ -217,7 +223,7 @@ def run_case(case, ctx):
             n = rng.randint(1, 5)
             x = Fxp(np.array([rng.randint(lox, hix) for _ in range(n)]), fx[0], fx[1], fx[2], raw=True)
             y = Fxp(np.array([rng.randint(loy, hiy) for _ in range(n)]), fy[0], fy[1], fy[2], raw=True)
-        do_ops(ctx, x, y)
+        do_ops(ctx, x, y, rng=rng)
         if case['i'] % 4 == 0:
             # operands with a history: signedness changed on its own, built like= another object with another sign, flags raised by an earlier store
             x2 = Fxp(np.asarray(x.val), fx[0], fx[1], fx[2], raw=True)
